@@ -66,6 +66,38 @@ class Planted(np.random.RandomState):
         return np.array(want, dtype=base.dtype).reshape(np.shape(base))
 
 
+class PlantedGen(np.random.Generator):
+    """the same for the new-style np.random.Generator API"""
+
+    def __init__(self, uniforms=(), integers=()):
+        super().__init__(np.random.PCG64(12345))
+        self.uq = list(uniforms)
+        self.iq = list(integers)
+        self.shape_mismatch = None
+
+    def _next(self, q, base, what):
+        if not q:
+            self.shape_mismatch = ("unexpected " + what, np.shape(base))
+            return base
+        want = q.pop(0)
+        if np.shape(want) != np.shape(base):
+            self.shape_mismatch = (np.shape(want), np.shape(base))
+            return base
+        if np.ndim(base) == 0:
+            return type(base)(want) if what == "integers" else float(want)
+        return np.array(want, dtype=np.asarray(base).dtype).reshape(np.shape(base))
+
+    def random(self, size=None, dtype=np.float64, out=None):
+        return self._next(self.uq, super().random(size), "random")
+
+    def uniform(self, low=0.0, high=1.0, size=None):
+        assert low == 0 and high == 1
+        return self._next(self.uq, super().uniform(low, high, size), "uniform")
+
+    def integers(self, low, high=None, size=None, dtype=np.int64, endpoint=False):
+        return self._next(self.iq, super().integers(low, high, size=size, dtype=dtype, endpoint=endpoint), "integers")
+
+
 # ----------------------------------------------------------------------------
 # independent oracle (plain Python floats, linear scans, the definitions)
 
@@ -176,10 +208,18 @@ def gen_row(rng, n, ctx):
     return [x / s for x in w], False
 
 
+def gen_dyadic_row(rng, n, ctx):
+    while True:
+        r, d = gen_row(rng, n, ctx)
+        if d:
+            return r, d
+
+
 def gen_matrix(rng, n, ctx):
     rows, dy = [], True
+    all_dyadic = rng.random() < 0.35       # exact cumulative sums: these also run at Rat
     for _ in range(n):
-        r, d = gen_row(rng, n, ctx)
+        r, d = gen_dyadic_row(rng, n, ctx) if all_dyadic else gen_row(rng, n, ctx)
         rows.append(r)
         dy = dy and d
     return rows, dy
@@ -295,13 +335,26 @@ def canon_X(X):
     return "dim=2|k=%d|X=%s" % (X.shape[0], intm(X.tolist()))
 
 
-def sim_case(ctx, ch, init, init_wire, reps, ts, via, dyadic, cases, tagbase, fixed_u=None):
+def sim_case(ctx, ch, init, init_wire, reps, ts, via, dyadic, cases, tagbase, fixed_u=None, sv=None):
     rng = ctx.rng
     n = ch.n
     k_draw = (1 if reps is None else reps) if init is None else 0
     drawn = [rng.randrange(n) for _ in range(k_draw)]
-    exp = expected_init(n, init, reps, drawn)
-    if via == "simulate" and exp != "ERR" and init is not None:
+    use_gen = rng.random() < 0.25
+    if use_gen:
+        ctx.count("rng:Generator")
+    if sv is not None and init is not None:
+        # state values: simulate() first maps every requested value to its first position
+        vals = [int(init)] if isinstance(init, (int, np.integer)) else [int(i) for i in init]
+        if any(v not in sv for v in vals):
+            exp = "ERR"
+            ctx.count("sv:value-not-found")
+        else:
+            idx = [sv.index(v) for v in vals]
+            exp = expected_init(n, idx[0] if isinstance(init, (int, np.integer)) else idx, reps, drawn)
+    else:
+        exp = expected_init(n, init, reps, drawn)
+    if sv is None and via == "simulate" and exp != "ERR" and init is not None:
         # simulate() looks the value up among the states: only 0 <= init < n exist
         l = [int(init)] if isinstance(init, (int, np.integer)) else [int(i) for i in init]
         if any(i < 0 for i in l):
@@ -326,21 +379,39 @@ def sim_case(ctx, ch, init, init_wire, reps, ts, via, dyadic, cases, tagbase, fi
     if fallback_steps:
         ctx.count("step:u>=cdf[-1]", fallback_steps)
 
-    def call():
-        rs = Planted(uniforms=[Uarr], integers=[np.array(drawn, dtype=np.int64)] if init is None else [])
+    def call(interpreted=False):
+        rs = (PlantedGen if use_gen else Planted)(
+            uniforms=[Uarr], integers=[np.array(drawn, dtype=np.int64)] if init is None else [])
         f = ch.mc.simulate if via == "simulate" else ch.mc.simulate_indices
         try:
-            X = f(ts, init=init, num_reps=reps, random_state=rs)
+            if interpreted:
+                with interpreted_kernels():
+                    X = f(ts, init=init, num_reps=reps, random_state=rs)
+            else:
+                X = f(ts, init=init, num_reps=reps, random_state=rs)
         except ValueError:
             return "ERR:ValueError", None, rs
         except IndexError:
             return "ERR:IndexError", None, rs
         return canon_X(X), np.asarray(X), rs
 
-    out, X, rs = call()
+    # Pre-flight: the same source run by CPython (kernels' .py_func), where a read outside an array
+    # raises instead of returning garbage / crashing the process.  Only if that is clean is the
+    # compiled kernel run (and it is the compiled result that is compared with the model).
+    out, X, rs = call(interpreted=True)
+    unsafe = out == "ERR:IndexError" or (sv is None and X is not None and X.size and (X.min() < 0 or X.max() >= n))
+    if unsafe:
+        ctx.count("sim:unsafe-in-preflight")
+    else:
+        out_i = out
+        out, X, rs = call()
+        if out != out_i:
+            ctx.spec_fail("compiled_vs_interpreted", "compiled kernel %s, interpreted %s" % (out, out_i),
+                          {"op": "simulate", "sparse": ch.sparse, "init": init_wire, "ts": ts})
     replay = {"op": "simulate", "sparse": ch.sparse, "via": via, "n": n, "init": init_wire, "num_reps": reps,
               "ts_length": ts, "P_rows": [[c, [x.hex() for x in p]] for c, p, _ in ch.rows],
-              "uniforms": [[x.hex() for x in r] for r in U], "drawn": drawn, "code": out}
+              "uniforms": [[x.hex() for x in r] for r in U], "drawn": drawn, "code": out,
+              "state_values": sv, "generator": use_gen}
     key = "simulate_sparse" if ch.sparse else "simulate_dense"
     # ---- spec oracle on the code's output ----
     if exp == "ERR" or ts == 0:
@@ -349,7 +420,8 @@ def sim_case(ctx, ch, init, init_wire, reps, ts, via, dyadic, cases, tagbase, fi
             # (negative in-range inits may legitimately be accepted or rejected; out-of-range never accepted)
             ctx.spec_fail(key + "_init_range", "init %s outside the state space accepted: %s" % (init_wire, out), replay)
     elif X is None:
-        ctx.spec_fail(key + "_raises", "valid request raised %s" % out, replay)
+        ctx.spec_fail(key + ("_out_of_bounds" if out == "ERR:IndexError" else "_raises"),
+                      "valid request raised %s%s" % (out, " (read outside an array)" if out == "ERR:IndexError" else ""), replay)
     else:
         dim, st = exp
         if rs.shape_mismatch:
@@ -360,6 +432,15 @@ def sim_case(ctx, ch, init, init_wire, reps, ts, via, dyadic, cases, tagbase, fi
         else:
             X2 = X.reshape(len(st), ts)
             bad = None
+            if sv is not None:
+                if any(int(v) not in sv for v in X2.ravel()):
+                    bad = "a returned value is not a state value"
+                    st = []
+                elif len(set(sv)) == n:
+                    X2 = np.array([[sv.index(int(v)) for v in r] for r in X2], dtype=int).reshape(len(st), ts)
+                else:
+                    st = []            # duplicated labels: positions not recoverable; correspondence only
+                    ctx.count("sv:duplicate-labels")
             for i, s0 in enumerate(st):
                 if X2[i, 0] != s0:
                     bad = "path %d starts at %d, requested %d" % (i, X2[i, 0], s0)
@@ -385,7 +466,7 @@ def sim_case(ctx, ch, init, init_wire, reps, ts, via, dyadic, cases, tagbase, fi
             if bad:
                 ctx.spec_fail(key, bad, replay)
         # determinism: the same stream gives the same path
-        out2, _, _ = call()
+        out2, _, _ = call(interpreted=unsafe)
         if out2 != out:
             ctx.spec_fail(key + "_determinism", "same uniforms, different paths", replay)
     # ---- correspondence ----
@@ -395,8 +476,29 @@ def sim_case(ctx, ch, init, init_wire, reps, ts, via, dyadic, cases, tagbase, fi
         line = "C10 %s init=%s reps=%s drawn=%s via=%s ts=%d u=%s" % (
             ch.wire(sc), init_wire, "none" if reps is None else str(reps), ints(drawn), via, ts,
             (fxm if sc == "float" else ratm)(U))
+        if sv is not None:
+            line += " sv=" + ints(sv)
         impl = ch.code_cdfs(sc) + "|" + out
         cases.append(Case(line, impl, nontrivial=nontrivial, tag=tagbase + ":" + sc))
+
+
+class interpreted_kernels:
+    """run the path kernels of markov/core.py as plain Python (their .py_func)"""
+
+    def __enter__(self):
+        from quantecon.markov import core
+        self.core, self.saved = core, {}
+        for name in ("_generate_sample_paths", "_generate_sample_paths_sparse"):
+            f = getattr(core, name, None)
+            if f is not None and hasattr(f, "py_func"):
+                self.saved[name] = f
+                setattr(core, name, f.py_func)
+        return self
+
+    def __exit__(self, *a):
+        for name, f in self.saved.items():
+            setattr(self.core, name, f)
+        return False
 
 
 def make_sparse(rng, rows, ctx):
@@ -442,7 +544,9 @@ def load_corpus(ctx):
 def run(ctx):
     import quantecon as qe
     from quantecon.markov.core import MarkovChain, mc_sample_path
-    from quantecon.util.array import searchsorted, searchsorted_cdf
+    from quantecon.util import array as qarray
+    searchsorted = qarray.searchsorted
+    searchsorted_cdf = getattr(qarray, "searchsorted_cdf", None)   # absent in trees before the F2 repair
     from quantecon.random import utilities as qru
 
     rng = ctx.rng
@@ -468,7 +572,7 @@ def run(ctx):
         ctx.count("corpus-cases")
 
     # ---- simulate / simulate_indices ------------------------------------------------------------
-    n_chains = ctx.n(70, 700)
+    n_chains = ctx.n(250, 2500)
     for ci in range(n_chains):
         n = rng.choice([1, 2, 3, 3, 4, 5, 6, 7, 10, 10])
         rows, dyadic = gen_matrix(rng, n, ctx)
@@ -491,6 +595,77 @@ def run(ctx):
                 ts = rng.choice([0, 1, 2, 3, 5, 8, 13]) if rng.random() < 0.9 else rng.randint(20, ctx.n(60, 400))
                 via = rng.choice(["indices", "indices", "simulate"])
                 sim_case(ctx, ch, init, iw, reps, ts, via, dyadic, cases, "sparse" if sp else "dense")
+            if rng.random() < 0.5:
+                # annotated chain: simulate() looks the initial values up and returns values
+                sv = rng.sample(range(-20, 40), n)
+                if n >= 2 and rng.random() < 0.2:
+                    sv[rng.randrange(1, n)] = sv[0]
+                mc.state_values = sv
+                kind = rng.randrange(5)
+                if kind == 0:
+                    init, iw = None, "none"
+                elif kind <= 2:
+                    v = rng.choice(sv) if rng.random() < 0.85 else 99
+                    init, iw = v, "s:%d" % v
+                else:
+                    l = [rng.choice(sv) for _ in range(rng.randint(0, 3))]
+                    if l and rng.random() < 0.15:
+                        l[0] = -77
+                    init, iw = (np.array(l, dtype=int) if rng.random() < 0.5 else l), "a:" + ints(l)
+                ctx.count("sv:cases")
+                sim_case(ctx, ch, init, iw, rng.choice([None, None, 2]), rng.choice([1, 2, 4, 7]), "simulate",
+                         dyadic, cases, ("sparse" if sp else "dense") + "-sv", sv=sv)
+                mc.state_values = None
+
+    # ---- the constructor's checks: which matrices are chains at all -----------------------------
+    from fractions import Fraction
+    TOL = Fraction(1, 10 ** 8) + Fraction(1, 10 ** 5)
+    for _ in range(ctx.n(300, 3000)):
+        n = rng.choice([1, 2, 3, 4, 6, 9, 10])
+        rows, _d = gen_matrix(rng, n, ctx)
+        kind = rng.randrange(8)
+        if kind == 0:
+            i, j = rng.randrange(n), rng.randrange(n)
+            rows[i][j] += rng.choice([2e-5, 1.2e-5, 1e-4, 0.5, -3e-5]) if rows[i][j] > 0.1 else 2e-5
+            ctx.count("accept:row-sum-off")
+        elif kind == 1:
+            i, j = rng.randrange(n), rng.randrange(n)
+            rows[i][j] += rng.choice([9e-6, -9e-6, 5e-6, 1e-9]) if rows[i][j] > 0.1 else 9e-6
+            ctx.count("accept:row-sum-inside-tolerance")
+        elif kind == 2 and n >= 2:
+            i = rng.randrange(n)
+            j, k = rng.sample(range(n), 2)
+            rows[i][j] -= rows[i][j] + 0.25
+            rows[i][k] += 0.25 + (rows[i][j] + 0.25) * 0   # keep it simple: a negative entry
+            ctx.count("accept:negative-entry")
+        elif kind == 3:
+            rows = rows[:-1] if n >= 2 and rng.random() < 0.5 else [r + [0.0] for r in rows]
+            ctx.count("accept:not-square")
+        elif kind == 4:
+            rows[rng.randrange(n)] = [0.0] * n
+            ctx.count("accept:zero-row")
+        # keep away from the 1e-15 sliver where the double test and the exact test may differ
+        sliver = any(abs(abs(sum(Fraction(x) for x in r) - 1) - TOL) < Fraction(1, 10 ** 12) for r in rows)
+        if sliver:
+            ctx.count("accept:skipped-boundary-sliver")
+            continue
+        for sp in (False, True):
+            try:
+                A = np.array(rows)
+                MarkovChain(sparse.csr_matrix(A) if sp else A)
+                out = "ok"
+            except ValueError:
+                out = "ERR:ValueError"
+            # independent exact oracle of the documented requirement
+            square = all(len(r) == len(rows) for r in rows)
+            want_ok = square and all(x >= 0 for r in rows for x in r) and \
+                all(abs(sum(Fraction(x) for x in r) - 1) <= TOL for r in rows)
+            ctx.count("accept:" + out)
+            if (out == "ok") != want_ok:
+                ctx.spec_fail("constructor_checks", "MarkovChain(%s) -> %s, requirement says %s" % (
+                    "csr" if sp else "dense", out, "ok" if want_ok else "ValueError"),
+                    {"op": "MarkovChain", "sparse": sp, "P": [[x.hex() for x in r] for r in rows]})
+            cases.append(Case("C10 accept P=%s" % fxm(rows), out, nontrivial=True, tag="accept"))
 
     # ---- equal seeds give equal paths (the real generator, no injection) -----------------------
     for _ in range(ctx.n(6, 40)):
@@ -509,9 +684,22 @@ def run(ctx):
             ctx.spec_fail("seed_determinism", "equal seeds, different paths", {"P": rows, "seed": seed})
         if not ((0 <= a).all() and (a < n).all() and (0 <= c).all() and (c < n).all()):
             ctx.spec_fail("seed_range", "state outside range", {"P": rows, "seed": seed})
+        # the same for a Generator seed, mc_sample_path and DiscreteRV.draw
+        g1 = mc.simulate_indices(20, init=0, random_state=np.random.default_rng(seed))
+        g2 = mc.simulate_indices(20, init=0, random_state=np.random.default_rng(seed))
+        m1 = mc_sample_path(np.array(rows), init=rows[0], sample_size=20, random_state=seed)
+        m2 = mc_sample_path(np.array(rows), init=rows[0], sample_size=20, random_state=seed)
+        d1 = qe.DiscreteRV(rows[0]).draw(k=20, random_state=seed)
+        d2 = qe.DiscreteRV(rows[0]).draw(k=20, random_state=seed)
+        if not (np.array_equal(g1, g2) and np.array_equal(m1, m2) and np.array_equal(d1, d2)):
+            ctx.spec_fail("seed_determinism", "equal seeds, different results (Generator / mc_sample_path / DiscreteRV)",
+                          {"P": rows, "seed": seed})
+        for arr in (g1, m1, d1):
+            if not ((0 <= np.asarray(arr)).all() and (np.asarray(arr) < n).all()):
+                ctx.spec_fail("seed_range", "state outside range", {"P": rows, "seed": seed})
 
     # ---- mc_sample_path --------------------------------------------------------------------------
-    for _ in range(ctx.n(60, 500)):
+    for _ in range(ctx.n(150, 1500)):
         n = rng.choice([2, 3, 4, 6, 10])
         rows, dyadic = gen_matrix(rng, n, ctx)
         try:
@@ -543,19 +731,31 @@ def run(ctx):
         else:
             Us = []
         uq = ([np.float64(u0)] if use_dist else []) + [np.array(Us, dtype=float).reshape(len(Us), ts - 1)]
-        rs = Planted(uniforms=uq)
-        try:
-            X = mc_sample_path(np.array(rows), init=init_arg, sample_size=ts, random_state=rs)
-            out = canon_X(X)
-        except ValueError:
-            X, out = None, "ERR:ValueError"
+        def call_mcsp(interpreted):
+            rs = Planted(uniforms=list(uq))
+            try:
+                if interpreted:
+                    with interpreted_kernels():
+                        X = mc_sample_path(np.array(rows), init=init_arg, sample_size=ts, random_state=rs)
+                else:
+                    X = mc_sample_path(np.array(rows), init=init_arg, sample_size=ts, random_state=rs)
+                return np.asarray(X), canon_X(X)
+            except ValueError:
+                return None, "ERR:ValueError"
+            except IndexError:
+                return None, "ERR:IndexError"
+        X, out = call_mcsp(True)          # pre-flight, see sim_case
+        if out != "ERR:IndexError" and not (X is not None and X.size and (X.min() < 0 or X.max() >= n)):
+            X, out = call_mcsp(False)
+        else:
+            ctx.count("mcsp:unsafe-in-preflight")
         replay = {"op": "mc_sample_path", "P": [[x.hex() for x in r] for r in rows], "init": str(init_arg),
                   "u0": None if u0 is None else u0.hex(), "uniforms": [u.hex() for u in U], "code": out}
         if not (0 <= x0 < n):
             if X is not None:
                 ctx.spec_fail("mc_sample_path_init", "initial state %d accepted" % x0, replay)
         elif X is None:
-            ctx.spec_fail("mc_sample_path_raises", "valid request raised", replay)
+            ctx.spec_fail("mc_sample_path_raises", "valid request raised %s" % out, replay)
         else:
             bad = None
             X = np.asarray(X)
@@ -584,7 +784,7 @@ def run(ctx):
             cases.append(Case(line, out, nontrivial=(X is not None and ts >= 2), tag="mcsp:" + sc))
 
     # ---- DiscreteRV.draw and random.draw -------------------------------------------------------------
-    for _ in range(ctx.n(150, 1500)):
+    for _ in range(ctx.n(400, 4000)):
         n = rng.choice([1, 2, 3, 4, 6, 7, 10])
         q, dyadic = gen_row(rng, n, ctx)
         cdf = seq_cumsum(q)
@@ -595,7 +795,12 @@ def run(ctx):
             ctx.count("draw:u>=cdf[-1]", nfb)
         # DiscreteRV
         rs = Planted(uniforms=[np.array(us, dtype=float)])
-        d = qe.DiscreteRV(rng.choice([list, np.array])(q))
+        if rng.random() < 0.25:
+            d = qe.DiscreteRV([1.0])            # then replace the vector through the setter
+            d.q = rng.choice([list, np.array])(q)
+            ctx.count("drv:q-setter")
+        else:
+            d = qe.DiscreteRV(rng.choice([list, np.array])(q))
         idx = d.draw(k=kdraw, random_state=rs)
         replay = {"op": "DiscreteRV.draw", "q": [x.hex() for x in q], "uniforms": [u.hex() for u in us],
                   "code": np.asarray(idx).tolist()}
@@ -641,6 +846,53 @@ def run(ctx):
             f1 = fxs if sc == "float" else rats
             cases.append(Case("C10 draw sc=%s cdf=%s u=%s" % (sc, f1(cdf), f1(ul)), ints(gl),
                               nontrivial=len(ul) > 0, tag="draw:" + sc))
+    # random.draw called from compiled code (the @overload path); the uniforms are those Numba's own
+    # generator yields for the seed, observed by a second compiled function with the same seed
+    try:
+        from numba import njit
+
+        @njit
+        def jit_draw_n(cdf, size, seed):
+            np.random.seed(seed)
+            return qru.draw(cdf, size)
+
+        @njit
+        def jit_draw_1(cdf, seed):
+            np.random.seed(seed)
+            return qru.draw(cdf)
+
+        @njit
+        def jit_unif(size, seed):
+            np.random.seed(seed)
+            return np.random.random(size)
+        have_jit = True
+    except Exception as e:          # no Numba: nothing to observe
+        have_jit = False
+        ctx.notes.append("jitted draw not exercised: %r" % (e,))
+    for _ in range(ctx.n(60, 600) if have_jit else 0):
+        n = rng.choice([1, 2, 3, 7, 10])
+        q, dyadic = gen_row(rng, n, ctx)
+        cdf = seq_cumsum(q)
+        seed = rng.randrange(2 ** 31)
+        size = rng.choice([None, 1, 4, 16])
+        if size is None:
+            ul = [float(jit_unif(1, seed)[0])]
+            gl = [int(jit_draw_1(np.array(cdf), seed))]
+        else:
+            ul = [float(x) for x in jit_unif(size, seed)]
+            gl = [int(x) for x in jit_draw_n(np.array(cdf), size, seed)]
+            gl2 = [int(x) for x in jit_draw_n(np.array(cdf), size, seed)]
+            if gl2 != gl:
+                ctx.spec_fail("random_draw_jit_determinism", "equal seeds, different draws", {"cdf": [x.hex() for x in cdf], "seed": seed})
+        bad = None
+        for u, j in zip(ul, gl):
+            bad = bad or inv_cdf_ok(q, cdf, u, j)
+        if bad or len(gl) != len(ul):
+            ctx.spec_fail("random_draw_jit", bad or "wrong number of draws",
+                          {"op": "random.draw (compiled)", "cdf": [x.hex() for x in cdf], "size": size, "seed": seed,
+                           "uniforms": [u.hex() for u in ul], "code": gl})
+        cases.append(Case("C10 draw sc=float cdf=%s u=%s" % (fxs(cdf), fxs(ul)), ints(gl), tag="draw-jit:float"))
+
     # empty probability vector: Q[-1] does not exist
     try:
         qe.DiscreteRV([]).draw(k=1, random_state=Planted(uniforms=[np.array([0.5])]))
@@ -651,7 +903,7 @@ def run(ctx):
 
     # ---- the search routines themselves, on arbitrary (also unsorted / non-finite) arrays ------------
     specials = [0.0, -0.0, 1.0, U_MAX, float("inf"), -float("inf"), float("nan"), 0.5, 0.25]
-    for _ in range(ctx.n(500, 5000)):
+    for _ in range(ctx.n(1500, 15000)):
         ln = rng.randint(0, 9)
         kind = rng.randrange(4)
         if kind == 0:
@@ -669,6 +921,10 @@ def run(ctx):
         v = rng.choice(a) if a and rng.random() < 0.5 else rng.choice(specials + [rng.random()])
         arr = np.array(a, dtype=float)
         i1 = int(searchsorted(arr, v))
+        if searchsorted_cdf is None:
+            ctx.count("ss:no-searchsorted_cdf-in-tree")
+            cases.append(Case("C10 ss sc=float a=%s v=%s" % (fxs(a), fx(v)), str(i1), nontrivial=ln >= 2, tag="ss"))
+            continue
         i2 = int(searchsorted_cdf(arr, v))
         finite_sorted = kind in (0, 1) and not (math.isnan(v))
         if finite_sorted:
@@ -694,8 +950,52 @@ def run(ctx):
         cases.append(Case(bad, "bad-op", nontrivial=False, cmp=lambda mo, impl: None if mo == "bad-op" else "accepted",
                           tag="malformed"))
 
+    ctx.extra["trace_fidelity"] = ("every dense/sparse/drv case compares the cumulative sums computed by the model's "
+                                   "Float instance with the code's cdfs / cdfs1d / Q bit for bit (part of the exact "
+                                   "string comparison), so a mismatch count of 0 means 100% trace fidelity")
     outs = ctx.driver([c.line for c in cases if c.tag == "malformed"])
     for o in outs:
         if o != "bad-op":
             ctx.mismatches.append({"request": "malformed", "model": o, "code": "bad-op", "why": "driver accepted a malformed request"})
     ctx.run_cases([c for c in cases if c.tag != "malformed"])
+
+
+# ----------------------------------------------------------------------------
+# ./check C10 --replay <file>: re-run a recorded failing input on the real code
+
+
+def replay(data):
+    """prints what the real code does now on the recorded input; exit 1 if the oracle still objects"""
+    from quantecon.markov.core import MarkovChain
+    r = data.get("replay", data)
+    op = r.get("op")
+    print("replaying %s: %s" % (op, data.get("what", "")))
+    if op == "simulate":
+        n = r["n"]
+        rows = [(c, [float.fromhex(x) for x in p]) for c, p in r["P_rows"]]
+        if r["sparse"]:
+            data_, ind, ptr = [], [], [0]
+            for c, p in rows:
+                data_ += p
+                ind += c
+                ptr.append(len(data_))
+            P = sparse.csr_matrix((np.array(data_), np.array(ind, dtype=np.int32), np.array(ptr, dtype=np.int32)), shape=(n, n))
+        else:
+            P = np.array([p for _, p in rows])
+        mc = MarkovChain(P, state_values=r.get("state_values"))
+        iw = r["init"]
+        init = None if iw == "none" else (int(iw[2:]) if iw.startswith("s:") else [int(t) for t in iw[2:].split(",") if t not in ("", "-")])
+        U = np.array([[float.fromhex(x) for x in row] for row in r["uniforms"]], dtype=float)
+        ts = r["ts_length"]
+        U = U.reshape(len(r["uniforms"]), max(ts - 1, 0))
+        rs = Planted(uniforms=[U], integers=[np.array(r.get("drawn", []), dtype=np.int64)] if init is None else [])
+        f = mc.simulate if r["via"] == "simulate" else mc.simulate_indices
+        try:
+            with interpreted_kernels():
+                out = canon_X(f(ts, init=init, num_reps=r["num_reps"], random_state=rs))
+        except (ValueError, IndexError) as e:
+            out = "ERR:" + type(e).__name__
+        print("recorded: %s\nnow     : %s" % (r.get("code"), out))
+        return 0 if out != r.get("code") else 1
+    print(json.dumps(r, indent=1)[:4000])
+    return 0
